@@ -91,7 +91,7 @@ def invalid_calls(ctx):
 
 
 def cfg_with_es(rng, name):
-    c = jobs.cfg_variants(rng, name, (1, 1, 2, 3, 5), (1, 1, 1.5, 2, 3))
+    c = jobs.cfg_variants(rng, name, (1, 1, 2, 3, 5), (1, 1, 1.5, 2, 3), (0, 0, 0, 1, 3), 0.3)
     r = rng.random()
     if r < 0.25:
         c["early_stopping"] = {"patience": rng.choice([1, 2, 3]), "min_delta": rng.choice([1e-4, 0.01, 1.0])}
@@ -106,7 +106,7 @@ def run(ctx):
     ctx.prove(MODULES)
     ctx.suites_run += ["S-loop", oracles.SUITE]
     rng = ctx.rng
-    ctx.rule("strict: all optimizers × continuous tasks (7 bound regimes, dimension 1..8, 4 single + 2 weighted multi objectives, min/max) × configs (max_cycles 1,2,3,5; population 1×..3×; "
+    ctx.rule("strict: all optimizers × continuous tasks (7 bound regimes, dimension 1..8, 4 single + 2 weighted multi objectives, min/max) × configs (max_cycles 1,2,3,5; population 1×..3× (+0/+1/+3); one algorithm parameter moved inside its validator range in 30% of the runs; "
              "early stopping / fitness_error variants) × serial/thread(/process); baseline: ≥ 3 integer-coded tasks per working (optimizer, encoding) pair; malformed: every combination of "
              "{config present/absent} × workers {None,-3,0,1,4} × mode {None, 3 valid, 3 invalid} + invalid definitions + weight-count mismatches; a case = one run / call; non-trivial = all; distinct by job")
     invalid_calls(ctx)
